@@ -40,6 +40,8 @@ Ltac run_loops :=
   | rewrite fold_modes_nil ].
 
 Ltac perturbed_prep :=
+  unfold Yreal, Ysym, Nreal, Nsym, Pshape, Lshape, H_radial;
+  cbn beta iota zeta;
   unfold pos2d_0, pos2d_1, unit2d_0, unit2d_1, pos3d_0, pos3d_1, pos3d_2, unit3d_0, unit3d_1, unit3d_2,
     pos3s_0, pos3s_1, pos3s_2, unit3s_0, unit3s_1, unit3s_2;
   unfold dist2d, curv2d, vol2d, set_vol2d, perim_approx2d, line2d, surface2d,
